@@ -57,7 +57,7 @@ const reExecutions = 3
 
 // replayAttempts is how many executions a replay of a recorded violation may
 // take to show it again.
-const replayAttempts = 6
+const replayAttempts = 10
 
 func (Engine) Describe() simcore.Description {
 	return simcore.Description{
@@ -622,6 +622,15 @@ func (w *world) block(st simcore.Step, dt time.Duration, inBurst bool) {
 	if w.epochTicked(ra) {
 		run.Probe("epoch-boundary")
 	}
+	if n := countEvents(ra.Events, "distribution"); n > 0 {
+		run.Probe("gauge-distribution")
+		if n > 1 {
+			run.Probe("gauge-distribution-to-several-receivers")
+		}
+	}
+	if countEvents(ra.Events, "unlock") > 0 {
+		run.Probe("lock-matured-in-end-block")
+	}
 	if w.compare("B", ra, rb, w.B, kept) {
 		return
 	}
@@ -679,6 +688,16 @@ func (w *world) epochTicked(r *simnet.BlockResult) bool {
 		}
 	}
 	return false
+}
+
+func countEvents(es []abci.Event, typ string) int {
+	n := 0
+	for _, e := range es {
+		if e.Type == typ {
+			n++
+		}
+	}
+	return n
 }
 
 func eventsDiff(a, b []abci.Event) string {
